@@ -1266,6 +1266,8 @@ def rules(rep, m):
                         whole = trip is not None and ix["kind"] == "DeclRefExpr" and ivars.get(ix["ref"]["name"]) == ("0", 1)
                     elif src["kind"] == "UnaryOperator" and src.get("opcode") == "*":
                         q = strip(kids(src)[0], casts=True)
+                        if q["kind"] == "UnaryOperator" and q.get("opcode") == "++" and q.get("isPostfix"):
+                            q = strip(kids(q)[0], casts=True)          # *p++ reads the element p is at, then steps
                         if q["kind"] == "DeclRefExpr" and q["ref"]["name"] in ivars and ivars[q["ref"]["name"]][0].endswith(("->wa", ".wa")):
                             whole = trip is not None and ivars[q["ref"]["name"]][1] == 1
                     if whole is not None:
